@@ -326,6 +326,40 @@ fn check_tree(rep: &mut Report, case: u64, world: &World, shape: &Shape, ik: usi
         other => rep.violation(case, format!("C15:translate:{}", how), format!("identity key translation gives {:?}: {}", other.map(|x| x.0.chars().take(200).collect::<String>()), brief())),
     }
     // the same tree built through the TapTree::leaf / combine API
+    // the leaf iterators are double ended: from the back they must give the same leaves
+    {
+        let fwd: Vec<(u8, Vec<u8>)> = tr.leaves().map(|l| (l.depth(), l.miniscript().encode().to_bytes())).collect();
+        let r = guarded(std::panic::AssertUnwindSafe(|| {
+            let mut back: Vec<(u8, Vec<u8>)> = tr.leaves().rev().map(|l| (l.depth(), l.miniscript().encode().to_bytes())).collect();
+            back.reverse();
+            // alternating ends
+            let mut it = tr.leaves();
+            let (mut head, mut tail) = (vec![], vec![]);
+            loop {
+                match it.next() {
+                    Some(l) => head.push((l.depth(), l.miniscript().encode().to_bytes())),
+                    None => break,
+                }
+                match it.next_back() {
+                    Some(l) => tail.push((l.depth(), l.miniscript().encode().to_bytes())),
+                    None => break,
+                }
+            }
+            tail.reverse();
+            head.extend(tail);
+            (back, head)
+        }));
+        match r {
+            Ok((back, mixed)) => {
+                if back != fwd || mixed != fwd {
+                    rep.violation(case, format!("C15:leaves-from-the-back:{}", how), format!("leaves().rev() / alternating next()+next_back() do not give the forward leaves: forward {:?} back {:?} mixed {:?}; {}", short(&fwd), short(&back), short(&mixed), brief()));
+                } else {
+                    rep.count("leaves-double-ended-consistent");
+                }
+            }
+            Err(m) => rep.violation(case, format!("C15:panic:leaves-rev:{}", norm_loc(&last_panic_loc())), format!("{}: {}", m, brief())),
+        }
+    }
     if n <= 300 {
         let mss: Vec<Miniscript<Dk, Tap>> = names.iter().filter_map(|m| Miniscript::<Dk, Tap>::from_str(m).ok()).collect();
         if mss.len() == n {
